@@ -131,8 +131,8 @@ Proof.
 Qed.
 
 (* ---- projections of the setters ------------------------------------------------------------------ *)
-Ltac ss := cbn [size items inflight stopped waiting tok lock prods cancelled results acc hand fin pool held nobj pick cons corrupt dropped faulty
-                set_size set_items set_inflight set_stopped set_waiting set_tok set_lock set_prods
+Ltac ss := cbn [size items inflight stopped waiting tok sigs prods cancelled results acc hand fin pool held nobj pick cons corrupt dropped faulty
+                set_size set_items set_inflight set_stopped set_waiting set_tok set_sigs set_prods
                 set_cancelled set_results set_acc set_hand set_fin set_pool set_held set_nobj set_pick set_cons set_corrupt set_dropped set_faulty setp fst snd] in *.
 
 (* destruct the innermost match of the goal *)
@@ -146,9 +146,9 @@ Ltac dmatch :=
   end.
 
 Ltac unfold_step :=
-  unfold step, cread, cread_faulty, park, offer, try_add, enqueue, read, done, signal, deliver, handoff, find_res, lock_free, pool_get, pool_put, bcast;
-  cbn [size items inflight stopped waiting tok lock prods cancelled results acc hand fin pool held nobj pick cons corrupt dropped faulty
-       set_size set_items set_inflight set_stopped set_waiting set_tok set_lock set_prods
+  unfold step, cread, cread_faulty, park, offer, try_add, enqueue, read, done, signal, handoff, find_res, pool_get, pool_put, bcast;
+  cbn [size items inflight stopped waiting tok sigs prods cancelled results acc hand fin pool held nobj pick cons corrupt dropped faulty
+       set_size set_items set_inflight set_stopped set_waiting set_tok set_sigs set_prods
        set_cancelled set_results set_acc set_hand set_fin set_pool set_held set_nobj set_pick set_cons set_corrupt set_dropped set_faulty];
   try match goal with NF : corrupt _ = [] |- _ => rewrite ?NF; cbv beta iota end;
   try match goal with NF2 : faulty _ = [] |- _ => rewrite ?NF2; cbn [find_id] end.
@@ -166,30 +166,34 @@ Ltac cnt_rw :=
   end;
   cbn [is_insel is_lefttok is_leftctx b2z].
 
-(* ---- A. the token invariant of cond.go ------------------------------------------------------------ *)
+(* ---- A. the counter invariant of cond.go (after fix a6d2b6d09) --------------------------------------------------
+   #inside select + #took the bell, not yet re-locked + #left on ctx, not yet re-locked = waiting + signals;
+   a wake-up that nobody has taken yet has the bell rung or somebody on the way to the mutex with it. *)
 Definition tokinv (s : st) : Prop :=
-  0 <= waiting s /\
-  cnt is_insel (prods s) + cnt is_leftctx (prods s) = waiting s + b2z (tok s) + sb s /\
-  (forall k, lock s = BSend k -> tok s = true) /\
-  (forall p, lock s <> BRecv p) /\
-  (lock s = BBcast -> tok s = true /\ 0 < waiting s).
+  0 <= waiting s /\ 0 <= sigs s /\
+  cnt is_insel (prods s) + cnt is_lefttok (prods s) + cnt is_leftctx (prods s) = waiting s + sigs s /\
+  (0 < sigs s -> tok s = true \/ 0 < cnt is_lefttok (prods s)).
 
 Lemma tokinv_init : tokinv init.
-Proof. unfold tokinv, sb. simpl. repeat split; try lia; intros; discriminate. Qed.
+Proof. unfold tokinv. simpl. repeat split; try lia. Qed.
 
 Lemma tokinv_step c s l s' z : tokinv s -> step c s l = Some (s', z) -> tokinv s'.
 Proof.
-  intros I H. revert I. unfold tokinv, sb.
+  intros I H. revert I. unfold tokinv.
   pose proof (cnt_nonneg is_insel (prods s)) as N1.
   pose proof (cnt_nonneg is_leftctx (prods s)) as N2.
-  revert N1 N2. revert H.
-  step_cases; intros N1 N2 (I1 & I2 & I3 & I4 & I5); cnt_rw;
-    try (specialize (I3 _ eq_refl)); try (destruct (I5 eq_refl) as [I5a I5b]); unfold b2z in *;
+  pose proof (cnt_nonneg is_lefttok (prods s)) as N3.
+  revert N1 N2 N3. revert H.
+  step_cases; intros N1 N2 N3 (I1 & I2 & I3 & I4); cnt_rw;
     try match goal with
     | H : pget ?p (prods s) = Some (PLeftCtx ?sz) |- _ => pose proof (cnt_ge_of_pget is_leftctx _ _ _ H eq_refl)
     end;
-    repeat split; try lia; try (intros; congruence); try (intros; discriminate);
-    try (exfalso; lia).
+    try match goal with
+    | H : pget ?p (prods s) = Some (PLeftTok ?sz) |- _ => pose proof (cnt_ge_of_pget is_lefttok _ _ _ H eq_refl)
+    end;
+    unfold b2z in *;
+    repeat split; try lia; try assumption; try reflexivity;
+    try (intros; first [left; reflexivity | right; lia | destruct I4 as [?|?]; [lia|left; assumption|right; lia]]).
 Qed.
 
 (* ---- B. size accounting ------------------------------------------------------------------------------ *)
